@@ -8,6 +8,7 @@ Definition go_lower_ip_map_lower := lower_ip_map_lower go_to_lower go_to_lower_a
 Definition go_kw_findable := kw_findable go_to_lower go_to_lower_ascii go_to_lower_idem.
 Definition go_kw_consistent := kw_consistent go_to_lower go_to_lower_ascii go_to_lower_idem.
 
+Definition go_exists_term := exists_term go_to_lower.
 Definition go_word_token := word_token go_to_lower.
 Definition go_text_consistent :=
   text_consistent go_is_letter go_is_number go_to_lower go_to_lower_ascii go_to_lower_idem go_class_ascii
